@@ -334,7 +334,9 @@ func (fi *FileInfo) checkObjects() error {
 			// cycles, so this stays safe on malformed input.
 			x, endPos, err := fi.doRead(objInfo, fi.makeSafeGetInt(), false)
 			if err != nil {
-				if IsMalformed(err) {
+				// an object cut short by the end of the file is broken,
+				// like any other malformed object
+				if IsMalformed(err) || errors.Is(err, io.EOF) || errors.Is(err, io.ErrUnexpectedEOF) {
 					objInfo.Broken = true
 					continue
 				}
